@@ -9,6 +9,7 @@
   implementation (tools/props/c07.py).
 -/
 import SuplaVerif.Model.Countdown
+import SuplaVerif.Model.Relay
 import SuplaVerif.Gen.Consts
 
 namespace SuplaVerif.C07
@@ -204,5 +205,28 @@ theorem c07_plain_duration (i : DurIn) (ht : i.time2 = 0) :
   have : i.eff = i.dur := by unfold DurIn.eff; rw [if_neg (by omega)]
   refine ⟨this, ?_⟩
   simp [DurIn.arms, this]
+
+/-! ### the relay state across a restart -/
+
+/-- **C07 (what is remembered is the logical state)** for both polarities of the wiring and every request (on, off, toggle): a relay
+    with a restore flag remembers the logical level the request produced, and writing that back at boot gives the same logical
+    level and the same pin level as before the restart -/
+theorem c07_restore_roundtrip (c : RelayCfg) (s : RelaySt) (hi : Nat) :
+    relaySaved true (wantOf c s hi) = some ((relayHiReq c s hi).logical c) ∧
+    (relayRestore c (wantOf c s hi)).logical c = (relayHiReq c s hi).logical c ∧
+    (relayRestore c (wantOf c s hi)).out = (relayHiReq c s hi).out := by
+  unfold relaySaved relayRestore relayHiReq RelaySt.logical
+  cases c.loLevel <;> simp
+
+/-- **C07 (which restart restores)** 'restore always' brings the remembered state back after every restart; the plain restore flag only
+    after a power cycle - after any other restart such a relay is off (idle pin), whatever was remembered -/
+theorem c07_restore_by_reason (c : RelayCfg) (plain : Bool) (reason : Nat) (saved : Bool) :
+    logicalAfterBoot c true plain reason saved = saved ∧
+    logicalAfterBoot c false true 0 saved = saved ∧
+    (reason ≠ 0 → logicalAfterBoot c false plain reason saved = c.loLevel) := by
+  unfold logicalAfterBoot restores relayRestore RelaySt.logical
+  refine ⟨by cases c.loLevel <;> simp, by cases c.loLevel <;> simp, fun h => ?_⟩
+  have : (reason == 0) = false := by simpa using h
+  cases c.loLevel <;> simp [this]
 
 end SuplaVerif.C07
